@@ -5,9 +5,10 @@
    model; `uni_laws u` = the three laws the shape theorems use (monitored over all scalar values).
    Invariants: Proofs/TokenInv.v (Tiling, InBounds, OrderedDisjoint, ZeroWidthOnlyBreaks), Proofs/Shape.v
    (kind_shape / Shape), Proofs/CondenseInv.v (Grouped + the grouping rule G_* of each pass, QuotesOk). *)
-Require Import Base Overlap OverlapProofs Tables_lexer Lexer Condense ListLemmas TokenInv CondenseInv LexerProofs
+Require Import Base Overlap Mask MaskProofs.
+Require Import OverlapProofs Tables_lexer Lexer Condense ListLemmas TokenInv CondenseInv LexerProofs
   CondPatterns3 CondPattern CondSpaces CondInitialisms CondSuffixQuotes Shape NumberFinite WordsMaximal DocumentProofs
-  C02Wrappers C02Gapped C02WrappersProofs C02Quotes C02GapPasses.
+  C02Wrappers C02Gapped C02WrappersProofs C02Quotes C02GapPasses C02Markdown C02MarkdownProofs C02NumberText.
 From Coq Require Import ZArith.
 
 (* ---------- the lexer ---------- *)
@@ -416,3 +417,146 @@ Example C02_match_quotes_stale_twin_limit :
   let ts := [mktok (mkspan 0 1) (KPunct (PQuote (Some 7)))] in
   match_quotes ts = Ok ts /\ unpaired_quote ts = Some 0 /\ ~ QuotesOk ts.
 Proof. exact match_quotes_stale_witness. Qed.
+
+(* ====================== phase 4: the Markdown glue ======================
+   Model: Model/C02Markdown.v — Markdown::parse over an ABSTRACT pulldown-cmark event stream (an event = the arm of
+   `match event` it falls into, its payload's char count, its source BYTE range), with the real inner parser
+   (plain_parse), the byte/char bookkeeping of Model/Mask.v, the final pop and the two wikilink passes.
+   md_contract src evs (decidable, md_contractb; monitored on every generated document):
+     K1 every range is start <= end on char boundaries of the source;
+     K2 an event that makes a covering token (SoftBreak, HardBreak, Code / Math, Html, Text) starts at or after every
+        earlier range start and at or after the end of every earlier such event (leaf ranges ordered and disjoint);
+     K3 its source range holds at least the characters the token claims: 1 for the breaks, the non-empty payload for
+        Code / Math / Html (nothing is asked of Text: its claim is clamped by the code since 548c418).
+   valid_char = Rust's `char` invariant (a scalar value), a fact about the input type. *)
+
+(* under the contract Markdown::parse never panics; the loop's tokens `raw` and the final tokens `ts` (a sub-sequence:
+   the pop of a trailing break and the two wikilink passes only remove tokens, whatever queue they build) have the
+   token invariant of the property — start <= end, covering tokens in bounds, ordered and disjoint, zero-width tokens
+   only Newline / ParagraphBreak — and EVERY token, the zero-width ones too, ends inside the text *)
+Theorem C02_markdown_glue : forall u ilt src evs,
+  Forall valid_char src -> md_contract src evs ->
+  exists raw ts,
+    markdown_raw u ilt src evs = Ok raw /\ markdown_parse u ilt src evs = Ok ts /\ Sub ts raw /\
+    TokInv (length src) raw /\ TokInv (length src) ts /\
+    Forall (fun t => tend t <= length src) ts.
+Proof. exact markdown_glue. Qed.
+Check C02_markdown_glue : forall u ilt src evs,
+  Forall valid_char src -> md_contract src evs ->
+  exists raw ts,
+    markdown_raw u ilt src evs = Ok raw /\ markdown_parse u ilt src evs = Ok ts /\ Sub ts raw /\
+    TokInv (length src) raw /\ TokInv (length src) ts /\
+    Forall (fun t => tend t <= length src) ts.
+Print Assumptions C02_markdown_glue.
+
+(* VecExt::remove_indices returns a sub-sequence for EVERY queue (the wikilink passes hand it queues that are not
+   sorted and contain duplicates) *)
+Theorem C02_remove_indices_sub : forall (xs : list token) i q, Sub (remove_indices i q xs) xs.
+Proof. exact remove_indices_sub. Qed.
+Check C02_remove_indices_sub : forall (xs : list token) i q, Sub (remove_indices i q xs) xs.
+Print Assumptions C02_remove_indices_sub.
+
+(* the contract is NOT always met by pulldown-cmark 0.13, and then the property fails on the implementation:
+   FC02b — `[[a|]] b`: the events after a wikilink with an empty display text are reported twice (clause K2 fails);
+   Markdown::parse emits the tokens of ` b` twice: covering tokens neither ordered nor disjoint *)
+Theorem C02_markdown_duplicate_text_refuted :
+  md_contractb (encode md_dup_src) 0 0 md_dup_evs = false /\
+  markdown_parse ascii_uni false md_dup_src md_dup_evs = Ok md_dup_out /\
+  ~ OrderedDisjoint md_dup_out.
+Proof. exact markdown_duplicate_text_witness. Qed.
+Check C02_markdown_duplicate_text_refuted :
+  md_contractb (encode md_dup_src) 0 0 md_dup_evs = false /\
+  markdown_parse ascii_uni false md_dup_src md_dup_evs = Ok md_dup_out /\
+  ~ OrderedDisjoint md_dup_out.
+Print Assumptions C02_markdown_duplicate_text_refuted.
+
+(* FC02a — `$$$$`: DisplayMath with an empty payload (clause K3 fails) becomes a zero-width Unlintable token *)
+Theorem C02_markdown_empty_math_refuted :
+  md_contractb (encode md_math_src) 0 0 md_math_evs = false /\
+  markdown_parse ascii_uni false md_math_src md_math_evs = Ok [mktok (mkspan 0 0) KUnlintable] /\
+  ~ ZeroWidthOnlyBreaks [mktok (mkspan 0 0) KUnlintable].
+Proof. exact markdown_empty_math_witness. Qed.
+Check C02_markdown_empty_math_refuted :
+  md_contractb (encode md_math_src) 0 0 md_math_evs = false /\
+  markdown_parse ascii_uni false md_math_src md_math_evs = Ok [mktok (mkspan 0 0) KUnlintable] /\
+  ~ ZeroWidthOnlyBreaks [mktok (mkspan 0 0) KUnlintable].
+Print Assumptions C02_markdown_empty_math_refuted.
+
+(* non-vacuity: "ü [[a|b]] `c`\n" with the event stream pulldown-cmark really delivers meets the contract; a
+   multi-byte character, a wikilink whose hidden target and brackets are removed, inline code, a kept trailing break *)
+Example C02_markdown_glue_nonvacuous :
+  Forall valid_char md_ex_src /\ md_contract md_ex_src md_ex_evs /\
+  markdown_parse uni_u_umlaut false md_ex_src md_ex_evs
+  = Ok [mktok (mkspan 0 1) KWord; mktok (mkspan 1 2) (KSpace 1); mktok (mkspan 6 7) KWord;
+        mktok (mkspan 9 10) (KSpace 1); mktok (mkspan 10 11) KUnlintable; mktok (mkspan 10 10) KParagraphBreak].
+Proof. exact markdown_glue_example. Qed.
+
+(* the lists of markdown.rs the model copies, re-read from the source on every run (Tables_lexer.v): the prose tags
+   (Link only when !ignore_link_title), the span length / Newline count of the SoftBreak, HardBreak and Start(List)
+   tokens, the End(..) tags that push a ParagraphBreak *)
+Theorem C02_markdown_tables : forall u ilt src bs stack tc rs re,
+  map md_tag_name (filter (tag_is_prose ilt) md_all_tags)
+    = map fst (filter (fun p => negb (snd p && ilt)) md_prose_tags) /\
+  map (fun e => match mk_step u ilt src bs stack tc (mkmev e rs re) with
+                | Ok ([t], _) => Some (Lexer.tspan t, tkind_of t)
+                | _ => None
+                end) [MSoftBreak; MHardBreak; MStart TList]
+    = map (fun '(_, len, n) => Some (span_new_with_len tc len, KNewline n)) md_break_arms /\
+  md_breaking_ends = map md_tag_name [TParagraph; TItem; THeading; TCodeBlock; TTableCell].
+Proof. exact (fun u ilt src bs stack tc rs re => conj (md_prose_table ilt) (conj (md_break_table u ilt src bs stack tc rs re) md_breaking_ends_pinned)). Qed.
+Check C02_markdown_tables : forall u ilt src bs stack tc rs re,
+  map md_tag_name (filter (tag_is_prose ilt) md_all_tags)
+    = map fst (filter (fun p => negb (snd p && ilt)) md_prose_tags) /\
+  map (fun e => match mk_step u ilt src bs stack tc (mkmev e rs re) with
+                | Ok ([t], _) => Some (Lexer.tspan t, tkind_of t)
+                | _ => None
+                end) [MSoftBreak; MHardBreak; MStart TList]
+    = map (fun '(_, len, n) => Some (span_new_with_len tc len, KNewline n)) md_break_arms /\
+  md_breaking_ends = map md_tag_name [TParagraph; TItem; THeading; TCodeBlock; TTableCell].
+Print Assumptions C02_markdown_tables.
+
+(* ====================== phase 4: a number token's text denotes its value and suffix ======================
+   Proofs/C02NumberText.v.  pos_value base dv ds = sum of dv(digit) * base^position: the POSITIONAL value of a digit
+   string, defined without the Horner folds the lexer model runs.  DecLit lit neg mant ex = the GRAMMAR of a decimal
+   literal with its meaning:  lit = sign? ip [`.` fp] [(e|E) sign? digits],  ip and fp digit strings not both empty,
+   mant = pos_value of the digits ip fp read as one integer,  ex = written exponent - |fp|
+   (so  (-1)^neg * mant * 10^ex  is the number the literal writes). *)
+
+(* the folds of the model compute positional values *)
+Theorem C02_digits_positional : forall ds,
+  digits_val ds = pos_value 10 digit_val ds /\ hex_digits_val ds = pos_value 16 hex_val ds.
+Proof. exact (fun ds => conj (digits_val_pos ds) (hex_digits_val_pos ds)). Qed.
+Check C02_digits_positional : forall ds,
+  digits_val ds = pos_value 10 digit_val ds /\ hex_digits_val ds = pos_value 16 hex_val ds.
+Print Assumptions C02_digits_positional.
+
+(* the model of str::parse::<f64> accepts EXACTLY the literals of the grammar, with exactly the denoted value *)
+Theorem C02_parse_f64_grammar : forall lit neg mant ex,
+  parse_f64 lit = Some (neg, mant, ex) <-> DecLit lit neg mant ex.
+Proof. exact parse_f64_declit. Qed.
+Check C02_parse_f64_grammar : forall lit neg mant ex,
+  parse_f64 lit = Some (neg, mant, ex) <-> DecLit lit neg mant ex.
+Print Assumptions C02_parse_f64_grammar.
+
+(* every Number token of a plain-English document (under uni_laws): its text is  literal ++ suffix letters  where
+   - decimal (radix 10): DecLit literal (stored sign, mantissa, exponent), the exact value is below the f64 overflow
+     threshold, the stored precision is the number of characters after the last `.` of the literal;
+   - hex (radix 16): literal = `0x` ++ ds, ds non-empty hex digits, stored value = pos_value 16 of ds;
+   - no suffix stored: no letters;  suffix s stored: exactly two letters a b with NumberSuffix::from_chars a b = s *)
+Theorem C02_document_number_text : forall u, uni_laws u -> forall s,
+  exists ts, document_plain u s = Ok ts /\ Forall (number_tok_denotes s) ts.
+Proof. exact document_number_text. Qed.
+Check C02_document_number_text : forall u, uni_laws u -> forall s,
+  exists ts, document_plain u s = Ok ts /\ Forall (number_tok_denotes s) ts.
+Print Assumptions C02_document_number_text.
+
+(* non-vacuity: `0x1F 21st -1.5e2` has a hex number, a number with a suffix and a float with an exponent (the `-` is a
+   Hyphen token; precision 3 = the characters `5e2` after the last `.`, a quirk kept);  and `-1.5e2` is a DecLit *)
+Example C02_number_text_nonvacuous :
+  document_plain ascii_uni [48;120;49;70;32;50;49;115;116;32;45;49;46;53;101;50]%N
+  = Ok [mktok (mkspan 0 4) (KNumber (mknumber false 31 0%Z None 16 0)); mktok (mkspan 4 5) (KSpace 1);
+        mktok (mkspan 5 9) (KNumber (mknumber false 21 0%Z (Some SufSt) 10 0)); mktok (mkspan 9 10) (KSpace 1);
+        mktok (mkspan 10 11) (KPunct PHyphen);
+        mktok (mkspan 11 16) (KNumber (mknumber false 15 1%Z None 10 3))]
+  /\ DecLit [45;49;46;53;101;50]%N true 15 1%Z.
+Proof. split; [vm_compute; reflexivity|apply parse_f64_declit; vm_compute; reflexivity]. Qed.
